@@ -1,0 +1,36 @@
+//go:build !verif
+
+/*
+Copyright 2026 Codenotary Inc. All rights reserved.
+
+SPDX-License-Identifier: BUSL-1.1
+*/
+
+// Package simhook provides guarded instrumentation points used by the
+// deterministic-simulation harness (build tag "verif").
+//
+// Without the tag every function is an empty, inlinable stub and Enabled is a
+// false constant, so `if simhook.Enabled { ... }` blocks are eliminated at
+// compile time and the shipped behaviour is unchanged.
+package simhook
+
+// Enabled reports whether simulation hooks are compiled in.
+const Enabled = false
+
+func Yield(point string)                              {}
+func BeforeLock(point string, try func() bool)        {}
+func GoStart(name string)                             {}
+func GoEnd()                                          {}
+func Intn(n int, label string) int                    { return 0 }
+func Probe(name string)                               {}
+func IOCreate(path string)                            {}
+func IOWrite(path string, off int64, data []byte)     {}
+func IOSync(path string)                              {}
+func IOSyncDir(path string)                           {}
+func IORemove(path string)                            {}
+func IORemoveAll(path string)                         {}
+func IOReplace(path string, data []byte)              {}
+func IOFailWrite(path string, off int64, n int) error { return nil }
+func IOFailSync(path string) error                    { return nil }
+func IOFailRead(path string, off int64, n int) error  { return nil }
+func IOCorruptRead(path string, off int64, b []byte)  {}
